@@ -370,7 +370,7 @@ func c16Child(args []string) {
 
 func genC16(c *hlib.Ctx) {
 	r := c.R
-	for i := 0; i < c.N(60, 1500); i++ {
+	for i := 0; i < c.N(60, 500); i++ {
 		n := r.Range(1, 14)
 		items := make([]string, n)
 		for j := range items {
@@ -380,7 +380,7 @@ func genC16(c *hlib.Ctx) {
 		c.Do("lz.seq "+strings.Join(items, ","), true)
 	}
 	// stress: real goroutines, for a total of a few seconds
-	runs := c.N(6, 120)
+	runs := c.N(6, 40)
 	for i := 0; i < runs; i++ {
 		readers := r.Range(2, 8)
 		unloaders := r.Range(1, 3)
